@@ -288,6 +288,30 @@ def gen_history(r, name, malformed=False):
     return lines
 
 
+def gen_ext_scenario(r, name):
+    """external element at a (mostly non-zero) offset of its external file; after a reopen a READ handle is used
+    first, then a WRITE handle while the read handle is still open (the external file was opened read-only by the
+    first one: HXPwrite's reopen-and-retry path); everything is read back through both handles and after reopen"""
+    tag, ref = r.choice(TAGS), r.randrange(1, 5)
+    lines = ["history " + name, "open 0 %d %d" % (r.choice([4, 5, 16]), r.choice([0, 1]))]
+    if r.random() < 0.5:
+        lines.append("putelement 0 %d %d %s" % (tag, ref + 5, hexs(rbytes(r, pick_len(r)))))
+    n1 = r.choice([1, 4, 9, 16, 33])
+    if r.random() < 0.3:
+        lines += ["putelement 0 %d %d %s" % (tag, ref, hexs(rbytes(r, n1))),
+                  "hxcreate 0 0 %d %d 0 %d 0" % (tag, ref, r.choice([0, 3, 17, 40]))]
+    else:
+        lines += ["hxcreate 0 0 %d %d 0 %d 0" % (tag, ref, r.choice([0, 3, 17, 40])), "write 0 " + hexs(rbytes(r, n1))]
+    lines += ["end 0", "reopen 0 %d %d" % (r.choice([4, 16]), r.choice([0, 1])),
+              "startaccess 1 0 %d %d 1" % (tag, ref), "read 1 %d" % r.choice([0, 1, 3]),
+              "startaccess 2 0 %d %d 3" % (tag, ref)]
+    p = r.randrange(0, n1 + 3)
+    lines += ["seek 2 %d 0" % p, "write 2 " + hexs(rbytes(r, r.choice([1, 2, 5, 12]))), "tell 2",
+              "seek 1 0 0", "read 1 0", "seek 2 0 0", "read 2 0", "inquire 1", "end 1", "end 2",
+              "getelement 0 %d %d" % (tag, ref), "reopen 0 16 1", "getelement 0 %d %d" % (tag, ref)]
+    return lines
+
+
 def gen_lb_history(r, name):
     """one linked-block element, several handles sharing it: the R-vs-M correspondence (exact, incl. the
     allocation flags of every block table)"""
@@ -501,7 +525,8 @@ def run(ctx):
         corpus += split_histories([l for l in open(os.path.join(cdir, fn)).read().splitlines() if l.strip()])
     nh = 250 if ctx.tier == "quick" else 4000
     hists = corpus + [gen_history(r, "g%d" % i) for i in range(nh)] + \
-        [gen_history(r, "m%d" % i, malformed=True) for i in range(nh // 5)]
+        [gen_history(r, "m%d" % i, malformed=True) for i in range(nh // 5)] + \
+        [gen_ext_scenario(r, "x%d" % i) for i in range(nh // 6)]
     rc, R, S, flat = run_histories(ctx, hists, "main")
     opmix, fails_r = {}, 0
     pos = 0
